@@ -42,6 +42,16 @@ CHECKS = {
         "note": "Trusted: Python ast, E1 resolver, numpy basic indexing/assignment semantics. 1-D converters do not zero masked entries of a native input and the property does not ask them to.",
         "technique": "static analysis: slim-traversal typestate over abstract kernel summaries; canonical-form equality of stored payloads and scatter targets; guard dominance; constructor wiring rule",
     },
+    "C02": {
+        "text": "Decides, for all shapes, anisotropic pixel scales and origins at once, the closed form of every index/coordinate conversion by canonical-form equality with the formulas of the property statement: "
+                "pixel centre y = oy + ((H-1)/2 - i)s0, x = ox + (j - (W-1)/2)s1 (2-D and 1-D, scalar and grid variants, grid from mask); central scaled coordinate +oy/s0, -ox/s1; index = int(inverse affine + 1/2); "
+                "flattened index = row*W + col on integer coordinates of the same geometry; compositions centre->index->centre and scaled->pixels->scaled reduce to the identity by substitution of forms; "
+                "Geometry2D/1D minima/maxima/extent = origin -/+ shape*scale/2 in (x_min, x_max, y_min, y_max) order; the five shape-mask constructors start all-masked and unmask [y, x] exactly under the documented "
+                "radial inequality of the pixel-centre offset from `centre` (each ellipse with its own angle / axis ratio / radius); Geometry2D methods pass their own geometry triple. "
+                "Not decided: floating-point behaviour in the tie band, trigonometry of the elliptical radius (uninterpreted), containment of arbitrary query coordinates as numbers.",
+        "note": "Trusted: Python ast, E1 resolver, int() on non-negative arguments canonicalised with floor division, reference forms entered from the property statement.",
+        "technique": "static analysis: polynomial-normal-form constant propagation over kernels and class-layer properties + canonical-form equality; composition by substitution; normalised guard comparison; keyword wiring rule",
+    },
 }
 
 NOT_APPLICABLE = {f"C{n:02d}": PENDING for n in range(1, 21) if f"C{n:02d}" not in CHECKS}
